@@ -8,8 +8,11 @@
 (*   Obs(view, sh, x, y, d)     one non-blank cell the real code shows in a   *)
 (*                              view: "grid" (xlsx.Sheet.Cell), "tsv" (line,  *)
 (*                              field of Text()), "md" (row, column of the    *)
-(*                              Markdown table), "doc" (model table)          *)
+(*                              Markdown table), "doc" (model table),         *)
+(*                              "tables" (xlsx.Reader.Tables())               *)
 (*   End(view, sh, n)           the view of that sheet showed n cells         *)
+(*   Span(sh,c,r,rows,cols)     a cell flagged as merge root, with its span   *)
+(*   Spans(sh, n)               number of flagged roots in that sheet         *)
 (*   Ref(idx,row,col,digits,..) one conversion by the real A1 codec           *)
 (* The guard of Obs is the property: the spec must know a cell with that      *)
 (* value whose address is (x,y) plus the view's translation - none for the    *)
@@ -58,12 +61,12 @@ TraceNewSheet ==
 Allowed(view, sh, dc, dr) ==
     CASE view = "grid" -> dc = 0 /\ dr = 0
       [] view = "tsv"  -> dc = 0 /\ (sh = 1 => dr = 0) /\ dr <= 0
-      [] view \in {"md", "doc"} -> dc >= 0 /\ dr >= 0
+      [] view \in {"md", "doc", "tables"} -> dc >= 0 /\ dr >= 0
 
 TraceObs ==
     /\ l <= Len(Trace) /\ Ev.event = "Obs" /\ l' = l + 1
     /\ Ev.sh \in 1..cur
-    /\ \E g \in grid[Ev.sh] :
+    /\ \E g \in Shown(Ev.sh) :
           /\ g.d = Ev.d
           /\ LET dc == g.c - Ev.x
                  dr == g.r - Ev.y
@@ -78,7 +81,7 @@ TraceObs ==
 TraceEnd ==
     /\ l <= Len(Trace) /\ Ev.event = "End" /\ l' = l + 1
     /\ Ev.sh \in 1..cur
-    /\ Ev.n = Cardinality(grid[Ev.sh])
+    /\ Ev.n = Cardinality(Shown(Ev.sh))
     /\ Cardinality({e \in seen : e.view = Ev.view /\ e.sh = Ev.sh}) = Ev.n
     /\ UNCHANGED <<vars, orig, seen>>
 
@@ -91,7 +94,26 @@ TraceRef ==
     /\ Ev.back = Ev.idx /\ Ev.prow = Ev.row
     /\ UNCHANGED <<vars, orig, seen>>
 
-TraceNext == TraceRef \/ TraceReset \/ TraceMerge \/ TraceWrite \/ TraceNewSheet \/ TraceObs \/ TraceEnd
+\* merge metadata of the grid: a cell the real sheet flags as the root of a merged region
+\* with its span (full, or clipped to the populated extent), and per sheet the number of
+\* flagged roots = the regions whose top-left cell lies inside the populated extent
+Min(a, b) == IF a < b THEN a ELSE b
+TraceSpan ==
+    /\ l <= Len(Trace) /\ Ev.event = "Span" /\ l' = l + 1
+    /\ Ev.sh \in 1..cur
+    /\ \E m \in MergeSet(Ev.sh) :
+          /\ IsRoot(m, Ev.c, Ev.r)
+          /\ Ev.rows \in {SpanRows(m), Min(SpanRows(m), Extent(Ev.sh).r - m[2] + 1)}
+          /\ Ev.cols \in {SpanCols(m), Min(SpanCols(m), Extent(Ev.sh).c - m[1] + 1)}
+    /\ UNCHANGED <<vars, orig, seen>>
+
+TraceSpans ==
+    /\ l <= Len(Trace) /\ Ev.event = "Spans" /\ l' = l + 1
+    /\ Ev.sh \in 1..cur
+    /\ Ev.n = Cardinality({m \in MergeSet(Ev.sh) : m[1] <= Extent(Ev.sh).c /\ m[2] <= Extent(Ev.sh).r})
+    /\ UNCHANGED <<vars, orig, seen>>
+
+TraceNext == TraceSpan \/ TraceSpans \/ TraceRef \/ TraceReset \/ TraceMerge \/ TraceWrite \/ TraceNewSheet \/ TraceObs \/ TraceEnd
 
 TraceSpec == TraceInit /\ [][TraceNext]_tvars
 
